@@ -29,7 +29,25 @@ func Calc(ctx context.Context, proc *query.Processor, expr string) (err error) {
 		e.Message = "syntax error"
 		return query.NewSyntaxError(e)
 	}
-	selectEntity, _ := program[0].(parser.SelectQuery).SelectEntity.(parser.SelectEntity)
+
+	// The expression has to leave the query as it was built: one SELECT over STDIN.
+	var selectEntity parser.SelectEntity
+	isCalcQuery := len(program) == 1
+	if isCalcQuery {
+		var selectQuery parser.SelectQuery
+		if selectQuery, isCalcQuery = program[0].(parser.SelectQuery); isCalcQuery {
+			selectEntity, isCalcQuery = selectQuery.SelectEntity.(parser.SelectEntity)
+		}
+	}
+	if isCalcQuery {
+		_, isCalcQuery = selectEntity.SelectClause.(parser.SelectClause)
+	}
+	if isCalcQuery {
+		_, isCalcQuery = selectEntity.FromClause.(parser.FromClause)
+	}
+	if !isCalcQuery {
+		return query.NewSyntaxError(&parser.SyntaxError{Message: "syntax error"})
+	}
 
 	scope := query.NewReferenceScope(proc.Tx)
 	queryScope := scope.CreateNode()
